@@ -1131,10 +1131,14 @@ theorem C02_drain_partial (A B : Kcp) (D t0 : Nat) (ndA ndB : Bool) (hinit : Con
   have hbub : o A.snd_nxt s'.B.rcv_nxt ≤ o A.snd_nxt s'.A.snd_nxt := hc'.bub
   exact o_inj A.snd_nxt _ _ (by omega)
 
-/-- the full statement of the drain on the repaired model, of which `C02_drain_partial` is the case
-"send queue empty, head timers within `Rmax`": ANY consistent reachable state (in particular a
+/-- the full statement of the drain on the repaired model: ANY reachable state (in particular a
 non-empty send queue, a closed or zero remote window), fair links and a fair reader from now on ⇒ a
-bound depending on the state only after which `WaitSnd = 0`. -/
+bound depending on the state only after which `WaitSnd = 0`.  `C02_drain_partial` is the case "send queue
+empty"; `C02_drain_general_partial` (below) proves it for every send queue with the explicit bound
+`1 + WaitSnd · (fairStage + 2)` under two more checks on the states of the run: `TmrOk Rmax` (the timer of
+the head is never more than `Rmax` ahead — the RTO backoff of a segment is not capped in kcp-go, so a
+bound in terms of the start state alone would have to count the timeouts of every later head) and the
+window configuration `0 < snd_wnd < 2^31`, `rcv_wnd < 65536`. -/
 def C02_drain_repaired_full : Prop :=
   ∀ (A B : Kcp) (D t0 : Nat) (ndA ndB : Bool), SysC.ConsInit A B → ∀ (pre : List SysC.NetEv),
     SysC.NetNoWrap A.snd_nxt (Sys.init A B D t0 ndA ndB) pre →
@@ -1194,7 +1198,7 @@ Run hypotheses, all checks on single states (`SysC.FairHyp`; Boolean form `SysC.
 `0 < rcv_wnd < 65536`; the reader condition `QOk` (a reader with nothing to read has not left the queue
 full — B's queue MAY be full between two reads); `TmrOk Rmax`: the retransmission timer of the head is
 never more than `Rmax` ms ahead — the place where the uncapped RTO backoff enters the bound; `CfgA`:
-`0 < snd_wnd < 2^31`.  Of the start state: reachable, and B's queue not full. -/
+`0 < snd_wnd < 2^31`.  Nothing is asked of the start state beyond reachability. -/
 
 open KcpVerif.Sys KcpVerif.SysC in
 /-- **one stage of the general drain** -/
@@ -1209,18 +1213,16 @@ open KcpVerif.Sys KcpVerif.SysC in
 /-- **`C02_drain`, any send queue, congestion control on or off, fair reader**: two fresh endpoints, ANY
 history `pre` of writes, reads, events and network faults (loss, duplication, reordering); from the
 state it leaves the writer stops, the links are fair and the reader reads whenever there is something
-to read.  Once the clock has advanced by `WaitSnd · (fairStage + 2)` ms, with
+to read.  Once the clock has advanced by `1 + WaitSnd · (fairStage + 2)` ms, with
 `fairStage = quietLen + 1 + (Rmax + IA + 2·D + IB)` and
 `quietLen = (D + 1) + (IKCP_PROBE_LIMIT + 2·IA + 2·D + IB + 1) + 2·IA`, `WaitSnd = 0`; and whenever B's
 queue is not full the receiver has handed every numbered segment to the reader's queue. -/
 theorem C02_drain_general_partial (A B : Kcp) (D t0 : Nat) (ndA ndB : Bool) (hinit : ConsInit A B)
     (hpw : A.probe_wait = 0) (hIA : A.interval.toNat < 2 ^ 29) (pre : List NetEv)
     (hpre : NetNoWrap A.snd_nxt (Sys.init A B D t0 ndA ndB) pre) (Rmax : Nat) (hR : Rmax + A.interval.toNat < 2 ^ 31)
-    (hqB : (netRun (Sys.init A B D t0 ndA ndB) pre).B.rcv_queue.length <
-      (netRun (Sys.init A B D t0 ndA ndB) pre).B.rcv_wnd.toNat)
     (evs : List Ev) (hns : ∀ ev ∈ evs, isSend ev = false)
     (hr : RunP (FairHyp ⟨A.snd_nxt, A.conv, 0, 0, 0⟩ Rmax A.interval.toNat) (netRun (Sys.init A B D t0 ndA ndB) pre) evs)
-    (hnow : (netRun (Sys.init A B D t0 ndA ndB) pre).now + (netRun (Sys.init A B D t0 ndA ndB) pre).A.waitSnd *
+    (hnow : (netRun (Sys.init A B D t0 ndA ndB) pre).now + 1 + (netRun (Sys.init A B D t0 ndA ndB) pre).A.waitSnd *
       (fairStage Rmax A.interval.toNat B.interval.toNat (netRun (Sys.init A B D t0 ndA ndB) pre).D + 2) ≤
       (Sys.run (netRun (Sys.init A B D t0 ndA ndB) pre) evs).now) :
     (Sys.run (netRun (Sys.init A B D t0 ndA ndB) pre) evs).A.waitSnd = 0 ∧
@@ -1231,7 +1233,7 @@ theorem C02_drain_general_partial (A B : Kcp) (D t0 : Nat) (ndA ndB : Bool) (hin
   obtain ⟨hi, hpi⟩ := inv_pinv_netRun (by omega) pre _ (inv_init A B D t0 ndA ndB hinit)
     (pinv_init A B D t0 ndA ndB hpw) hpre
   have ha := arrOk_netRun pre _ (arrOk_init A B D t0 ndA ndB)
-  have hw := drain_fair_all hIA hR _ _ hi hpi ha hqB (Nat.le_refl _) evs hns hr hnow
+  have hw := drain_fair_any hIA hR hi hpi ha evs hns hr hnow
   refine ⟨hw, fun hq' => ?_⟩
   have hi' := inv_run evs _ hi (fair_noWrap evs _ hr)
   obtain ⟨g1, g2, hc'⟩ := hi'.cons
